@@ -152,20 +152,23 @@ def own_points(ent) -> list:
 def tf_one(draw, kind: str, default_origin_ok: bool, composed: bool = False, via: Optional[str] = None):
     via = via or draw(st.sampled_from(["m", "l"]))
     nw = 3 if composed else 1  # default origins in the middle of a sequence: the center has moved by then
+    # a transform([...]) call may be issued twice with the same transformation objects (the flag of the first element
+    # of a call counts); kept away from extreme total ratios
+    twice = via == "l" and draw(st.integers(0, 3)) == 0
     if kind == "translate":
-        return {"k": kind, "via": via, "d": draw(st.one_of(point3_nz(10), point3_nz(10), point3(10)))}
+        return {"k": kind, "via": via, "twice": twice, "d": draw(st.one_of(point3_nz(10), point3_nz(10), point3(10)))}
     if kind == "rotate":
         ang = draw(fl(0.05, 6.2)) * draw(st.sampled_from([1, -1]))
-        return {"k": kind, "via": via, "angle": ang, "axis": draw(direction()), "origin": draw(origins(default_origin_ok, nw))}
+        return {"k": kind, "via": via, "twice": twice, "angle": ang, "axis": draw(direction()), "origin": draw(origins(default_origin_ok, nw))}
     if kind == "scale":
         lim = math.log(2.0) if composed else math.log(5.0)
         ratio = math.exp(draw(fl(-lim, lim)))
         if not composed and draw(st.integers(0, 2)) == 0:
             ratio = draw(st.sampled_from([1e-3, 1e3, 1e-3, 1e-2, 1e2]))  # unit conversions (mm <-> m, cm <-> m)
-        return {"k": kind, "via": via, "ratio": ratio, "origin": draw(origins(default_origin_ok, nw))}
+        return {"k": kind, "via": via, "twice": twice and 0.3 < ratio < 3, "ratio": ratio, "origin": draw(origins(default_origin_ok, nw))}
     if kind == "mirror":
         # origin None is documented as [0, 0, 0] for every class
-        return {"k": kind, "via": via, "normal": draw(direction()), "origin": draw(origins(True))}
+        return {"k": kind, "via": via, "twice": twice, "normal": draw(direction()), "origin": draw(origins(True))}
     raise ValueError(kind)
 
 
@@ -233,6 +236,7 @@ class Applied:
         self.normals_unit = True
         self.default_origin = False
         self.own_origin = False
+        self.reused = False
         self.kinds: List[str] = []
         self.vias: List[str] = []
 
@@ -270,15 +274,6 @@ def apply_tf(ent, tf: List[dict], facts: dict, center_covariant: bool = True) ->
             resolved.append(t)
         group = resolved
         needs_center = any(t["k"] in ("rotate", "scale") and t["origin"] is None for t in group)
-        center = None
-        if needs_center:
-            # documented default origin: the entity's center.  transform() re-reads it before every element of the
-            # list; a center is a point of the entity, so after the first j elements it is their image of `center`
-            # (not so for joints: JointBase.center is a corner of a top face, and mirroring swaps bottom and top)
-            center = np.array(ent.center, dtype=float)
-            if center.shape != (3,):
-                raise Violation("center-not-a-point", f"center is {center!r}", **facts)
-            out.default_origin = True
         args = []
         objs = []
         for t in group:
@@ -301,47 +296,72 @@ def apply_tf(ent, tf: List[dict], facts: dict, center_covariant: bool = True) ->
             args[j]["origin"] = view
             objs[j].origin = view
         keep = [{k: (None if v is None else v.copy()) for k, v in a.items()} for a in args]
-        try:
-            with warnings.catch_warnings():
-                warnings.simplefilter("ignore")
-                if group[0]["via"] == "l":
-                    ent.transform(objs)
-                else:
-                    t, a = group[0], args[0]
-                    if t["k"] == "translate":
-                        ent.translate(a["d"])
-                    elif t["k"] == "rotate":
-                        ent.rotate(t["angle"], a["axis"]) if a["origin"] is None else ent.rotate(t["angle"], a["axis"], a["origin"])
-                    elif t["k"] == "scale":
-                        ent.scale(t["ratio"]) if a["origin"] is None else ent.scale(t["ratio"], a["origin"])
+        # a transformation list is plain data: the same objects may be used again (here: on the entity as it is after
+        # the first call); every use is the affine map the list describes, default origins taken from the entity then
+        reps = 2 if (group[0]["via"] == "l" and group[0].get("twice") and not own_args) else 1
+        out.reused = out.reused or reps == 2
+        for _rep in range(reps):
+            center = None
+            if needs_center:
+                # documented default origin: the entity's center.  transform() re-reads it before every element of the
+                # list; a center is a point of the entity, so after the first j elements it is their image of `center`
+                # (not so for joints: JointBase.center is a corner of a top face, and mirroring swaps bottom and top)
+                center = np.array(ent.center, dtype=float)
+                if center.shape != (3,):
+                    raise Violation("center-not-a-point", f"center is {center!r}", **facts)
+                out.default_origin = True
+            try:
+                with warnings.catch_warnings():
+                    warnings.simplefilter("ignore")
+                    if group[0]["via"] == "l":
+                        ent.transform(objs)
                     else:
-                        ent.mirror(a["normal"]) if a["origin"] is None else ent.mirror(a["normal"], a["origin"])
-        except Violation:
-            raise
-        except Exception as ex:  # the property says transformations of valid entities succeed
-            raise Violation(
-                "transform-raised", f"{[t['k'] for t in group]} via {group[0]['via']}: {type(ex).__name__}: {ex}",
-                error=type(ex).__name__, step=[t["k"] for t in group], **facts,
-            ) from None
-        for j, (t, a, b) in enumerate(zip(group, args, keep)):
-            for name, v in a.items():
-                if j in own_args and name == "origin":
-                    continue  # part of the entity: it may move with it
-                if v is not None and not np.array_equal(v, b[name]):
-                    raise Violation(
-                        "argument-mutated", f"{t['k']} (via {t['via']}) changed its '{name}' argument {b[name]} -> {v}",
-                        step=t["k"], argument=name, **facts,
-                    )
-        within = np.eye(4)
-        for t in group:
-            m, s, par = tf_matrix(t, None if center is None else rm.apply(within, center))
-            within = m @ within
-            out.M = m @ out.M
-            out.s *= s
-            out.parity ^= par
-            out.mirrors += par
-            out.kinds.append(t["k"])
-            out.vias.append(t["via"])
+                        t, a = group[0], args[0]
+                        if t["k"] == "translate":
+                            ent.translate(a["d"])
+                        elif t["k"] == "rotate":
+                            ent.rotate(t["angle"], a["axis"]) if a["origin"] is None else ent.rotate(t["angle"], a["axis"], a["origin"])
+                        elif t["k"] == "scale":
+                            ent.scale(t["ratio"]) if a["origin"] is None else ent.scale(t["ratio"], a["origin"])
+                        else:
+                            ent.mirror(a["normal"]) if a["origin"] is None else ent.mirror(a["normal"], a["origin"])
+            except Violation:
+                raise
+            except Exception as ex:  # the property says transformations of valid entities succeed
+                raise Violation(
+                    "transform-raised", f"{[t['k'] for t in group]} via {group[0]['via']}: {type(ex).__name__}: {ex}",
+                    error=type(ex).__name__, step=[t["k"] for t in group], **facts,
+                ) from None
+            for j, (t, a, b) in enumerate(zip(group, args, keep)):
+                for name, v in a.items():
+                    if j in own_args and name == "origin":
+                        continue  # part of the entity: it may move with it
+                    if v is not None and not np.array_equal(v, b[name]):
+                        raise Violation(
+                            "argument-mutated", f"{t['k']} (via {t['via']}) changed its '{name}' argument {b[name]} -> {v}",
+                            step=t["k"], argument=name, **facts,
+                        )
+                if group[0]["via"] == "l":
+                    # the transformation objects handed over still hold what they were given (None stays None)
+                    obj = objs[j]
+                    held = {"d": getattr(obj, "displacement", None), "axis": getattr(obj, "axis", None),
+                            "normal": getattr(obj, "normal", None), "origin": getattr(obj, "origin", None)}
+                    for name, v in a.items():
+                        if held[name] is not v:
+                            raise Violation(
+                                "argument-mutated", f"transform() replaced the '{name}' of the {type(obj).__name__} object it was "
+                                f"given: {v} -> {held[name]}", step=t["k"], argument="transformation." + name, **facts,
+                            )
+            within = np.eye(4)
+            for t in group:
+                m, s, par = tf_matrix(t, None if center is None else rm.apply(within, center))
+                within = m @ within
+                out.M = m @ out.M
+                out.s *= s
+                out.parity ^= par
+                out.mirrors += par
+                out.kinds.append(t["k"])
+                out.vias.append(t["via"])
         i += len(group)
     return out
 
